@@ -1324,6 +1324,24 @@ func runL2History(g *gen, prof l2profile, nops int, stats map[string]int) (strin
 		do(&sop{kind: "upd", c: 0, key: key(), vals: []sval{g.l2val(), g.l2val(), g.l2val()}[:ncols], mask: []bool{true, true, true}[:ncols]})
 		stats["script_wt_inside_auto_tx"]++
 	}
+	if prof.connAttrs && prof.autoTime && g.r.Intn(3) == 0 {
+		// a transaction with the automatic write time whose connection sets a DEADLINE between two
+		// writes to one row: the transaction keeps its one write time (the second write is read back),
+		// and no write time is left set after COMMIT
+		vals := func(v int64) []sval {
+			return []sval{{tag: 'I', i: v}, {tag: 'I', i: v}, {tag: 'I', i: v}}[:ncols]
+		}
+		do(&sop{kind: "wt", c: 0, t: 0})
+		do(&sop{kind: "begin", c: 0})
+		do(&sop{kind: "ins", c: 0, key: sval{tag: 'I', i: 950}, vals: vals(1)})
+		do(&sop{kind: "dl", c: 0, t: 4102444800})
+		do(&sop{kind: "upd", c: 0, key: sval{tag: 'I', i: 950}, vals: vals(2), mask: []bool{true, true, true}[:ncols]})
+		do(&sop{kind: "sel", c: 0})
+		do(&sop{kind: "commit", c: 0})
+		do(&sop{kind: "rdconn", c: 0})
+		do(&sop{kind: "sel", c: 0})
+		stats["script_deadline_inside_auto_tx"]++
+	}
 	for step := 0; step < nops; step++ {
 		c := g.r.Intn(nconn)
 		ch := g.r.Intn(100)
